@@ -444,6 +444,7 @@ def judge(ctx, shard, cases, results, stats, report=True):
 def breadth(ctx, lincheck, per_variant):
     exes = build_shards(ctx, shard_sources())
     stats = {}
+    breadth.samples = []
     jobs = []
     allcases = {}
     corpus = []
@@ -462,6 +463,8 @@ def breadth(ctx, lincheck, per_variant):
                 cases.append(gen_case(rng, v, "v%d_%d" % (v["idx"], i)))
         allcases[name] = cases
         jobs.append(name)
+        if cases and len(breadth.samples) < 3:
+            breadth.samples.append({"shard": name, "case": cases[-1]})
     with ThreadPoolExecutor(max_workers=max(2, vcheck.NCPU)) as ex:
         res = list(ex.map(lambda n: (n, run_shard(ctx, n, exes[n], allcases[n], lincheck)), jobs))
     bad = 0
@@ -574,12 +577,12 @@ def run(ctx):
     if props:
         res = vcheck.coq_build(props)
         ctx.coq_evidence(res)
-    per_variant = 400 if ctx.thorough() else 90
+    per_variant = 400 if ctx.thorough() else 70
     t0 = time.time()
     stats, ncases, bad, ncorpus = breadth(ctx, lincheck, per_variant)
     ctx.log("breadth: %d cases over %d variants, %d bad, %.1fs" % (ncases, len(stats), bad, time.time() - t0))
     t1 = time.time()
-    sstats, divs = step_stage(ctx, 6000 if ctx.thorough() else 1500)
+    sstats, divs = step_stage(ctx, 6000 if ctx.thorough() else 1200)
     ctx.log("step correspondence: %s, %.1fs" % ({k: (v["agree"], v["diverged"]) for k, v in sstats.items()}, time.time() - t1))
     if divs and bad == 0 and not any(v["monitor_bad"] for v in sstats.values()):
         # the correspondence broke and neither lincheck on the breadth run nor the monitors found a failing input
@@ -605,6 +608,8 @@ def run(ctx):
         "histories_decided_by_verified_lincheck": sum(st["finished"] for st in stats.values()),
         "traces_validated_against_impl": sum(st["lin_ok"] for st in stats.values()) + sum(v["agree"] for v in sstats.values()),
         "step_correspondence": sstats,
+        "samples": getattr(breadth, "samples", []),
+        "modelled": "step grain: FeldmanHashSet<HP> (LV.Model.Feldman), SplitListSet<HP,MichaelList> (LV.Model.SplitList); all other variants: observable correspondence only",
     })
     if "obligations" not in ctx.coverage:
         ctx.coverage.update({"obligations": 0, "discharged": 0, "checker_cmd": "n/a (stage A only)"})
